@@ -90,6 +90,13 @@ def mvE2E (old new : Tree) : Tree :=
   | .fileOpt c e => .fileOpt c (match e with | some x => some x | none => extraOf old)
   | _ => mvCoded generatedFacts pathSer old new
 
+/-- Restoring from the cache as coded: declared outputs are replaced by the cached artifact; an optional output
+    the restored entry does not have is NOT removed (same lingering as in `mvE2E`). -/
+def rsE2E (old new : Tree) : Tree :=
+  match new with
+  | .fileOpt c e => .fileOpt c (match e with | some x => some x | none => extraOf old)
+  | _ => new
+
 abbrev Stamp' := Stamp String String String
 abbrev Out' := Out String Tree String String String
 abbrev Repo' := Repo String Attrs String String Tree
